@@ -160,6 +160,39 @@ def _anc9(node, fn):
     return out
 
 
+def check_recorded_before_next_step(prog, rep, rule):
+    """In a compensated body every created element is recorded for the rollback before the next step that can fail (shared with
+    C07: a service port created by peer() and not yet recorded when the second step fails stays in the model without a peer)."""
+    # ---- R9: what a step created is on the undo list before the next step can fail ----
+    for m_, c_, f_ in prog.all_functions():
+        if not m_.name.startswith('fim.user') or c_ is None:
+            continue
+        for tr_ in [t for t in ast.walk(f_) if isinstance(t, ast.Try) and t.handlers]:
+            lists_ = {l.iter.id for h_ in tr_.handlers for l in ast.walk(h_) if isinstance(l, ast.For) and isinstance(l.iter, ast.Name) and
+                      any(isinstance(c, ast.Call) and (call_name(c) in REMOVERS or call_name(c) in ('remove_cp_and_links', 'disconnect_interface', 'delete_node'))
+                          for c in ast.walk(l))}
+            for ul_ in sorted(lists_):
+                def records(st_):
+                    return [x.id for c in ast.walk(st_) if isinstance(c, ast.Call) and call_name(c) in ('append', 'add', 'extend', 'insert') and
+                            isinstance(c.func.value, ast.Name) and c.func.value.id == ul_ for a_ in c.args for x in ast.walk(a_) if isinstance(x, ast.Name)]
+                body_ = tr_.body
+                for i_, st_ in enumerate(body_):
+                    if not (isinstance(st_, ast.Assign) and len(st_.targets) == 1 and isinstance(st_.targets[0], ast.Name) and
+                            any(isinstance(c, ast.Call) for c in ast.walk(st_.value))):
+                        continue
+                    var_ = st_.targets[0].id
+                    rec_at = [j_ for j_ in range(i_ + 1, len(body_)) if var_ in records(body_[j_])]
+                    if not rec_at:
+                        continue
+                    between = [b_ for b_ in body_[i_ + 1:rec_at[0]] if any(isinstance(c, ast.Call) for c in ast.walk(b_)) and not records(b_)]
+                    rep.instance(rule, f'{c_.name}.{f_.name}: {var_} created at step {i_}, put on {ul_} at step {rec_at[0]}, fallible steps in between: {len(between)}')
+                    if between:
+                        rep.violation(rule, loc(m_, between[0]), f'{c_.name}.{f_.name}', f'{norm(between[0], 70)} runs before `{var_}` is on the undo list',
+                                      f'`{var_}` is created, then `{norm(between[0], 60)}` can raise before `{var_}` has been recorded on {ul_}: '
+                                      f'the handler does not know about it and leaves it in the model')
+
+
+
 def run(prog, rep):
     rep.extra['explanation'] = (
         'The NEW branch of each element constructor is analysed on its CFG: after the first statement that mutates the '
@@ -418,8 +451,27 @@ def run(prog, rep):
         probes = [c for c in probes if dominating(c) or guarded_by_parent_only(c)]
         parent_ok = (not links_parent) or any(any(isinstance(x, ast.Name) and x.id == pparams[0] for x in ast.walk(c)) for c in probes)
         tree_probe = [c for c in probes if any(isinstance(p_, ast.For) for p_ in _anc9(c, fi))]
-        region_consts = {x.value for x in ast.walk(fi) if isinstance(x, ast.Constant) and isinstance(x.value, str)} | \
-            {x.attr for x in ast.walk(fi) if isinstance(x, ast.Attribute)}
+        # what the writer and the helpers it calls (also generator helpers, which are not inlined) mention
+        region_fns, frontier = [fi], [fi]
+        seen_fn = set()
+        for _ in range(4):
+            nxt = []
+            for f__ in frontier:
+                for c in ast.walk(f__):
+                    if isinstance(c, ast.Call) and call_name(c) in apg10.methods and call_name(c) not in seen_fn and call_name(c) not in DEEP:
+                        seen_fn.add(call_name(c))
+                        nxt.append(apg10.methods[call_name(c)])
+            region_fns += nxt
+            frontier = nxt
+        region_consts = {x.value for f__ in region_fns for x in ast.walk(f__) if isinstance(x, ast.Constant) and isinstance(x.value, str)} | \
+            {x.attr for f__ in region_fns for x in ast.walk(f__) if isinstance(x, ast.Attribute)}
+        # ... and the class-level tables they refer to
+        for nm_ in [x.attr for f__ in region_fns for x in ast.walk(f__) if isinstance(x, ast.Attribute)] + \
+                [x.id for f__ in region_fns for x in ast.walk(f__) if isinstance(x, ast.Name)]:
+            for k_ in apg10.mro():
+                if nm_ in k_.assigns:
+                    region_consts |= {x.value for x in ast.walk(k_.assigns[nm_]) if isinstance(x, ast.Constant) and isinstance(x.value, str)}
+                    break
         ids_ok = (not need and not direct[w][1]) or (bool(tree_probe) and need <= region_consts and
                                                       any(isinstance(r_, ast.Raise) for c in tree_probe for l in _anc9(c, fi) if isinstance(l, ast.For) for r_ in ast.walk(l)))
         rep.instance('R10', f'{w}: links to its parent: {links_parent} (parent probed first: {parent_ok}); nested containers written {sorted(need)} (ids probed first: {ids_ok})')
@@ -438,11 +490,16 @@ def run(prog, rep):
     for cname, cf in apg10.methods.items():
         txt_names = {x.value for x in ast.walk(cf) if isinstance(x, ast.Constant) and isinstance(x.value, str)} | \
             {x.attr for x in ast.walk(cf) if isinstance(x, ast.Attribute)}
+        for nm_ in [x.attr for x in ast.walk(cf) if isinstance(x, ast.Attribute)] + [x.id for x in ast.walk(cf) if isinstance(x, ast.Name)]:
+            for k_ in apg10.mro():
+                if nm_ in k_.assigns:
+                    txt_names |= {x.value for x in ast.walk(k_.assigns[nm_]) if isinstance(x, ast.Constant) and isinstance(x.value, str)}
+                    break
         if len(set(CONTAINERS10) & txt_names) < 2 or 'node_id' not in txt_names:
             continue
         if any(isinstance(c, ast.Call) and call_name(c) in ('add_node', 'add_link') + DEEP for c in ast.walk(cf)):
             continue
-        if not any(isinstance(r_, ast.Return) and r_.value is not None for r_ in ast.walk(cf)):
+        if not any((isinstance(r_, ast.Return) and r_.value is not None) or isinstance(r_, (ast.Yield, ast.YieldFrom)) for r_ in ast.walk(cf)):
             continue
         if not any(isinstance(c, ast.Call) and call_name(c) == cname for w in DEEP for c in ast.walk(inline(prog, apg10, apg10.methods[w], depth=1))) and \
                 not any(isinstance(c, ast.Call) and call_name(c) == cname for o in apg10.methods.values() if o is not cf for c in ast.walk(o)):
@@ -468,32 +525,7 @@ def run(prog, rep):
 
     # ---- R9: what a step created is on the undo list before the next step can fail ----
     rep.rule('R9', 'in a compensated body every created element is recorded for the rollback before the next step that can fail', floor=2)
-    for m_, c_, f_ in prog.all_functions():
-        if not m_.name.startswith('fim.user') or c_ is None:
-            continue
-        for tr_ in [t for t in ast.walk(f_) if isinstance(t, ast.Try) and t.handlers]:
-            lists_ = {l.iter.id for h_ in tr_.handlers for l in ast.walk(h_) if isinstance(l, ast.For) and isinstance(l.iter, ast.Name) and
-                      any(isinstance(c, ast.Call) and (call_name(c) in REMOVERS or call_name(c) in ('remove_cp_and_links', 'disconnect_interface', 'delete_node'))
-                          for c in ast.walk(l))}
-            for ul_ in sorted(lists_):
-                def records(st_):
-                    return [x.id for c in ast.walk(st_) if isinstance(c, ast.Call) and call_name(c) in ('append', 'add', 'extend', 'insert') and
-                            isinstance(c.func.value, ast.Name) and c.func.value.id == ul_ for a_ in c.args for x in ast.walk(a_) if isinstance(x, ast.Name)]
-                body_ = tr_.body
-                for i_, st_ in enumerate(body_):
-                    if not (isinstance(st_, ast.Assign) and len(st_.targets) == 1 and isinstance(st_.targets[0], ast.Name) and
-                            any(isinstance(c, ast.Call) for c in ast.walk(st_.value))):
-                        continue
-                    var_ = st_.targets[0].id
-                    rec_at = [j_ for j_ in range(i_ + 1, len(body_)) if var_ in records(body_[j_])]
-                    if not rec_at:
-                        continue
-                    between = [b_ for b_ in body_[i_ + 1:rec_at[0]] if any(isinstance(c, ast.Call) for c in ast.walk(b_)) and not records(b_)]
-                    rep.instance('R9', f'{c_.name}.{f_.name}: {var_} created at step {i_}, put on {ul_} at step {rec_at[0]}, fallible steps in between: {len(between)}')
-                    if between:
-                        rep.violation('R9', loc(m_, between[0]), f'{c_.name}.{f_.name}', f'{norm(between[0], 70)} runs before `{var_}` is on the undo list',
-                                      f'`{var_}` is created, then `{norm(between[0], 60)}` can raise before `{var_}` has been recorded on {ul_}: '
-                                      f'the handler does not know about it and leaves it in the model')
+    check_recorded_before_next_step(prog, rep, 'R9')
 
     # ---- R11: a rollback handler is entered for every failure of the guarded steps ----
     rep.rule('R11', 'a handler that undoes the guarded steps and re-raises catches Exception (asserts, graph and model errors alike)', floor=5)
